@@ -106,7 +106,11 @@ class GCWorld(gen.World):
         # (or under the media type of the other kind of manifest: an image listed as an index, an index listed as an image)
         swap = {MT_OCI_M: MT_OCI_I, MT_DOCK_M: MT_DOCK_I, MT_OCI_I: MT_OCI_M, MT_DOCK_I: MT_DOCK_M}
         mistyped = [c for c in children if c not in as_blob and self.rng.random() < 0.12]
-        body = index_manifest([{"mediaType": opaque if c in as_blob else (swap[g.man[c]["mt"]] if c in mistyped else g.man[c]["mt"]), "digest": c, "size": len(g.bytes[c])} for c in children],
+        # (the size a descriptor states is the client's word: the registry does not compare it with the blob)
+        def size_of(c):
+            r_ = self.rng.random()
+            return len(g.bytes[c]) if r_ < 0.8 else (0 if r_ < 0.87 else (len(g.bytes[c]) - 1 if r_ < 0.94 else len(g.bytes[c]) + 7))
+        body = index_manifest([{"mediaType": opaque if c in as_blob else (swap[g.man[c]["mt"]] if c in mistyped else g.man[c]["mt"]), "digest": c, "size": size_of(c)} for c in children],
                               subject=sd, media_type=mt, annotations={"n": str(len(self.steps))})
         d = self.push(repo, body, mt, list(children), subject=subject, tag=tag, kind="index")
         g.man[d]["opaque"] = as_blob
@@ -184,6 +188,10 @@ class GCWorld(gen.World):
             return
         d = rng.choice(plain)
         data = g.bytes[d]
+        if rng.random() < 0.4:
+            # in one request, naming the digest: acknowledged without a session when the content is there already
+            self.add(upload_post(repo, digest=d, body=data))
+            return
         k = self.add(upload_post(repo))
         h = len(data) // 2
         if h and rng.random() < 0.5:
@@ -278,16 +286,13 @@ def replay_state(case, io):
         if kind == "blobget" and st.get("head"):
             last_head[(repo, st["arg"])] = (k, status)
         elif kind == "upost" and status == 201 and st["digest"]:
-            h = last_head.get((repo, st["digest"]))
-            if h and h[0] == k - 1 and h[1] == 404:
-                yg.add(st["digest"])
+            # acknowledged now: uploaded now, whether or not the repository held the content already
+            yg.add(st["digest"])
         elif kind == "uput" and status == 201 and st.get("digest"):
             yg.add(st["digest"])          # written through a session: stored (again) now
         elif kind == "mput" and status == 201:
             d = (res.get("headers") or {}).get("Docker-Content-Digest", [""])[0]
-            h = last_head.get((repo, d))
-            if h and h[0] == k - 1 and h[1] == 404:
-                yg.add(d)
+            yg.add(d)
             if gen.is_tag_py(st["arg"]):
                 tg[st["arg"]] = d
         elif kind == "mdel" and status == 202:
